@@ -35,9 +35,9 @@ type blockFacts struct {
 }
 
 type symLen struct {
-	k string    // key of slice
-	s ssa.Value // slice
-	v ssa.Value // len(s) >= v (+adj)
+	k   string    // key of slice
+	s   ssa.Value // slice
+	v   ssa.Value // len(s) >= v (+adj)
 	adj int
 }
 
@@ -77,7 +77,6 @@ func (fi *fnInfo) intKey(v ssa.Value, ctx *ssa.BasicBlock) (string, bool) {
 	}
 	return fmt.Sprintf("V:%p", v), true
 }
-
 
 func constInt(v ssa.Value) (int, bool) {
 	if c, ok := v.(*ssa.Const); ok && c.Value != nil && c.Value.Kind() == constant.Int {
@@ -308,9 +307,9 @@ func applyLen(s ssa.Value, op token.Token, c int, bf *blockFacts) {
 type fnInfo struct {
 	rootParam *ssa.Parameter
 	rootMin   int
-	fn      *ssa.Function
-	facts   map[*ssa.BasicBlock]*blockFacts
-	loadVer map[*ssa.UnOp]int
+	fn        *ssa.Function
+	facts     map[*ssa.BasicBlock]*blockFacts
+	loadVer   map[*ssa.UnOp]int
 }
 
 // intLB: lower bound of integer value using facts in ctx
@@ -706,12 +705,24 @@ func chainOf(v ssa.Value) chainInfo {
 					break
 				}
 				if _, ok := r.(*ssa.Parameter); ok {
-					if ci.root == nil { ci.root = r } else if ci.root != r { ci.otherRoots = true }
+					if ci.root == nil {
+						ci.root = r
+					} else if ci.root != r {
+						ci.otherRoots = true
+					}
 				} else if _, ok := r.(*ssa.Phi); ok {
-					if ci.root == nil { ci.root = r }
+					if ci.root == nil {
+						ci.root = r
+					}
 				} else {
-					if _, ok := r.(*ssa.UnOp); ok { ci.viaLoad = true }
-					if ci.root == nil { ci.root = r } else if ci.root != r { ci.otherRoots = true }
+					if _, ok := r.(*ssa.UnOp); ok {
+						ci.viaLoad = true
+					}
+					if ci.root == nil {
+						ci.root = r
+					} else if ci.root != r {
+						ci.otherRoots = true
+					}
 				}
 				return
 			}
@@ -753,7 +764,6 @@ func chainOf(v ssa.Value) chainInfo {
 	walk(v)
 	return ci
 }
-
 
 // linBase decomposes an integer value into (base key, constant offset):
 // v = base + k, following +/- constants and conversions.
